@@ -224,7 +224,7 @@ def cases(tier, rng):
                         ks = rng.sample(sorted(cand), min(len(cand), 8 if big else 5))
                     for k in ks:
                         yield {"op": "entries", "fmt": fmt, "header": header, "ents": ents, "gz": gz, "nl": nl, "crlf": crlf,
-                               "lazy": lazy, "k": k, "longest": longest}
+                               "lazy": lazy, "k": k, "longest": longest, "keep": (k + len(ents)) % 2 == 0}
 
 
 def nontrivial(c):
@@ -301,7 +301,7 @@ def impl(c):
                 return {"data": _raw(b) if b is not None else []}
             if c["mode"] == "carry":
                 r.set_prepend_mode()
-            chunks = []
+            chunks, live = [], []
             for _ in range(len(c["file"]) + 5):
                 b = r.read_chunk(min_chunk_size=c["k"])
                 if b is None:
@@ -310,6 +310,9 @@ def impl(c):
                 if not raw:
                     break
                 chunks.append(raw)
+                live.append(b)
+            if c["k"] % 2 == 0 and [_raw(b) for b in live] != chunks:   # earlier buffers re-read after all reads
+                return {"err": "err:ChunkChangedAfterLaterReads"}
             return {"chunks": chunks}
         except Exception as e:
             return {"err": _errname(e)}
@@ -331,8 +334,15 @@ def impl(c):
         try:
             rows = []
             with bnp.open(path, buffer_type=bt, lazy=c["lazy"]) as f:
-                for chunk in f.read_chunks(min_chunk_size=c["k"]):
-                    rows += table_rows(chunk)
+                if c.get("keep"):
+                    # keep every chunk alive and look at them only after the whole file was read
+                    # (a chunk must not change when later chunks are read)
+                    chunks = list(f.read_chunks(min_chunk_size=c["k"]))
+                    for chunk in chunks:
+                        rows += table_rows(chunk)
+                else:
+                    for chunk in f.read_chunks(min_chunk_size=c["k"]):
+                        rows += table_rows(chunk)
             return {"whole": whole, "chunked": rows}
         except Exception as e:
             return {"whole": whole, "err": _errname(e)}
